@@ -59,3 +59,59 @@ contract("monkeytype.stubs:update_signature_return", props=["C13"], theories=TH,
              "post:return": "implies(traced and yield_type is None and return_type is not None, new is return_type)",
              "post:never-invented": "implies(traced and yield_type is None and return_type is None, new is old_)",
          })
+
+contract("monkeytype.stubs:render_annotation", props=["C11", "C12", "C13"], theories=TH, mode="assumed",
+         params={"anno": "Anno"}, result="strp",
+         note="text of an annotation: outside the VC generator (repr of typing objects, str.replace chains); "
+              "decided by the bounded tier of C11. Callers see an uninterpreted string function of the type.")
+
+_EFFECTIVE = "ite(not (kind(panno(param)) is K_Union and umember(panno(param), NONETYPE)) and pdefault(param) is None," \
+             " Union_(tup(panno(param), NONETYPE)), panno(param))"
+contract("monkeytype.stubs:render_parameter", props=["C12", "C13"], theories=TH,
+         params={"param": "Param"}, result="str", hide=["post:text"],
+         requires={"anno-wf": "panno(param) is not UNION_BARE", "name-str": "true"},
+         ensures={
+             # name first, * / ** by kind, `= ...` iff a default is present, annotation iff not empty;
+             # C13: an annotated parameter whose default is None is shown as Optional of its annotation
+             "post:text": "unboxs(result) == concat(ite(pkind(param) is VAR_POSITIONAL, '*', ite(pkind(param) is VAR_KEYWORD, '**', '')),"
+                          " unboxs(pname(param)),"
+                          " ite(panno(param) is not EMPTY, concat(': ', render_annotation(" + _EFFECTIVE + ")), ''),"
+                          " ite(pdefault(param) is not EMPTY, ' = ...', ''))",
+         })
+
+# C12: the token list is E(sig): parameters in order, one '/' right after the positional-only ones,
+# one bare '*' before the first keyword-only parameter unless *args precedes it.
+_S = "ite(npo(sig) > 0, 1, 0)"
+_STAR = "(npos(sig) < len(params_of(sig)) and pkind(nth(params_of(sig), npos(sig))) is KEYWORD_ONLY)"
+_K = "ite(" + _STAR + ", 1, 0)"
+_TOK = "L_formatted_params"
+_POS = "j + ite(j >= npo(sig) and npo(sig) > 0, 1, 0) + ite(j >= npos(sig) and " + _STAR + ", 1, 0)"
+contract("monkeytype.stubs:render_signature", props=["C12"], theories=TH,
+         params={"sig": "Sig", "max_line_len": "Opt[int]", "prefix": "strp"}, result="strp",
+         requires={"valid": "is_valid_sig(sig)",
+                   "anno-wf": "forall(params_of(sig), lambda p: panno(p) is not UNION_BARE)"},
+         ensures={
+             "post:token-count": "len(%s) == len(params_of(sig)) + %s + %s" % (_TOK, _S, _K),
+             "post:tokens": "forall(range_(0, len(params_of(sig))), lambda j: nth(%s, %s) is render_parameter(nth(params_of(sig), j)), lambda j: nth(params_of(sig), j))" % (_TOK, _POS),
+             "post:slash": "implies(npo(sig) > 0, nth(%s, npo(sig)) is boxs('/'))" % _TOK,
+             "post:star": "implies(%s, nth(%s, npos(sig) + %s) is boxs('*'))" % (_STAR, _TOK, _S),
+             "post:single-line": "implies(result == L_rendered_single_line, result == concat('(', str_join(', ', %s), ')', L_rendered_return))" % _TOK,
+             "post:return-text": "L_rendered_return == ite(ret_of(sig) is not EMPTY, concat(' -> ', render_annotation(ret_of(sig))), '')",
+         },
+         loops={
+             0: {"iter": "sig.parameters.values()",
+                 "inv": {
+                     "flags-pos": "render_pos_only_separator == (_i > 0 and _i <= npo(sig))",
+                     "flags-kw": "render_kw_only_separator == (_i <= npos(sig) or pkind(nth(params_of(sig), npos(sig))) is VAR_KEYWORD)",
+                     "count": "len(formatted_params) == _i + ite(_i > npo(sig) and npo(sig) > 0, 1, 0) + ite(_i > npos(sig) and %s, 1, 0)" % _STAR,
+                     "tokens": "forall(range_(0, _i), lambda j: nth(formatted_params, %s) is render_parameter(nth(params_of(sig), j)), lambda j: nth(params_of(sig), j))" % _POS,
+                     "slash": "implies(_i > npo(sig) and npo(sig) > 0, nth(formatted_params, npo(sig)) is boxs('/'))",
+                     "star": "implies(_i > npos(sig) and %s, nth(formatted_params, npos(sig) + %s) is boxs('*'))" % (_STAR, _S),
+                 }},
+             1: {"iter": "enumerate(formatted_params)",
+                 "inv": {
+                     "len": "len(rendered_multi_lines) == _i + 1",
+                     "first": "unboxs(nth(rendered_multi_lines, 0)) == '('",
+                     "lines": "forall(range_(0, _i), lambda j: unboxs(nth(rendered_multi_lines, j + 1)) == concat(prefix, '    ', unboxs(nth(formatted_params, j)), ite(j != len(formatted_params) - 1, ',', '')))",
+                 }},
+             "tags": {"formatted_params": "Seq[str]", "rendered_multi_lines": "Seq[str]"}})
